@@ -12,14 +12,17 @@ import (
 
 	"github.com/fiorix/go-diameter/v4/diam"
 	"github.com/fiorix/go-diameter/v4/diam/datatype"
+	"github.com/fiorix/go-diameter/v4/diam/dict"
 	"github.com/fiorix/go-diameter/v4/diam/sm"
 	"github.com/fiorix/go-diameter/v4/diam/sm/smpeer"
 
 	"verifharness/ev"
+	"verifharness/gen"
 	"verifharness/lib"
 	"verifharness/memnet"
 	"verifharness/peer"
 	"verifharness/refcodec"
+	"verifharness/refdict"
 )
 
 const relayApp = 0xffffffff
@@ -177,10 +180,14 @@ func runC11(c *ev.Case, ctx *lib.Ctx, al []appAVP, cc c11Case) {
 
 	// reference predicate
 	shared := map[uint32]bool{}
+	sharedTyped := map[string]bool{} // "auth 4": what a success CEA must advertise
 	for _, a := range cc.apps {
 		for _, it := range al[a].ids {
 			if it.id == relayApp || ctx.Set.SupportsApp(it.id, it.typ) {
 				shared[it.id] = true
+				if it.id != relayApp && ctx.Set.HasTypedApp(it.id, it.typ) {
+					sharedTyped[fmt.Sprintf("%s %d", it.typ, it.id)] = true
+				}
 			}
 		}
 	}
@@ -267,24 +274,25 @@ func runC11(c *ev.Case, ctx *lib.Ctx, al []appAVP, cc c11Case) {
 			return
 		}
 		// the success CEA advertises at least the shared dictionary applications
-		adv := map[uint32]bool{}
+		adv := map[string]bool{}
 		for _, v := range peer.FindU32(cea, peer.AuthApp) {
-			adv[v] = true
+			adv[fmt.Sprintf("auth %d", v)] = true
 		}
 		for _, v := range peer.FindU32(cea, peer.AcctApp) {
-			adv[v] = true
+			adv[fmt.Sprintf("acct %d", v)] = true
 		}
 		for _, g := range peer.Find(cea, peer.VSApp) {
 			recs, _, _ := refcodec.Frame(g)
 			for _, r := range recs {
 				if (r.Code == peer.AuthApp || r.Code == peer.AcctApp) && len(r.Payload) == 4 {
-					adv[uint32(r.Payload[0])<<24|uint32(r.Payload[1])<<16|uint32(r.Payload[2])<<8|uint32(r.Payload[3])] = true
+					typ := map[uint32]string{peer.AuthApp: "auth", peer.AcctApp: "acct"}[r.Code]
+					adv[fmt.Sprintf("%s %d", typ, uint32(r.Payload[0])<<24|uint32(r.Payload[1])<<16|uint32(r.Payload[2])<<8|uint32(r.Payload[3]))] = true
 				}
 			}
 		}
-		for id := range shared {
-			if id != relayApp && !adv[id] {
-				c.Fail(sig("cea-missing-shared-app"), cea, nil, "success CEA does not advertise the shared application %d (advertised %v); %s", id, keysU32(adv), desc)
+		for k := range sharedTyped {
+			if !adv[k] {
+				c.Fail(sig("cea-missing-shared-app"), cea, nil, "success CEA does not advertise the shared application '%s' (advertised %v); %s", k, adv, desc)
 				return
 			}
 		}
@@ -402,4 +410,62 @@ func TestC11(t *testing.T) {
 			c.Fail(ev.Sig{"op": "bubble-leak"}, nil, nil, "goroutines left blocked after the scenario: %s; %s", leak, cc.String(al))
 		}
 	})
+}
+
+// TestC11Dict: a local dictionary that declares one application id with two
+// types (accounting in one file, authentication in a later one). It loads the
+// two files into dict.Default, so it runs in a process of its own.
+func TestC11Dict(t *testing.T) {
+	rec := ev.Open(t, "C11")
+	defer rec.Close()
+	_, restore := captureLog()
+	defer restore()
+	extra := []string{
+		`<?xml version="1.0" encoding="UTF-8"?><diameter><application id="9001" type="acct" name="Two-Type-A"></application><application id="9002" type="auth" name="Only-Auth"></application></diameter>`,
+		`<?xml version="1.0" encoding="UTF-8"?><diameter><application id="9001" type="auth" name="Two-Type-B"></application><application id="9003" name="Untyped"></application></diameter>`,
+	}
+	fs, err := lib.Embedded()
+	if err != nil {
+		t.Fatal(err)
+	}
+	files := append([]*refdict.File{}, fs...)
+	for i, x := range extra {
+		f, err := refdict.Parse(fmt.Sprintf("extra%d", i), x)
+		if err != nil {
+			t.Fatal(err)
+		}
+		if err := dict.Default.Load(bytes.NewReader([]byte(x))); err != nil {
+			t.Fatal(err)
+		}
+		files = append(files, f)
+	}
+	ctx := &lib.Ctx{Dict: gen.NewDict("default+two-type-app", files...), Parser: dict.Default}
+	u := func(code, id uint32) func() *refcodec.Node {
+		return func() *refcodec.Node { return peer.U32(code, id) }
+	}
+	al := []appAVP{
+		{"Auth9001", u(peer.AuthApp, 9001), ids(9001, "auth")},
+		{"Acct9001", u(peer.AcctApp, 9001), ids(9001, "acct")},
+		{"Auth9002", u(peer.AuthApp, 9002), ids(9002, "auth")},
+		{"Acct9002-wrongtype", u(peer.AcctApp, 9002), ids(9002, "acct")},
+		{"Auth9003-untyped", u(peer.AuthApp, 9003), ids(9003, "auth")},
+		{"Acct9003-untyped", u(peer.AcctApp, 9003), ids(9003, "acct")},
+		{"Auth4", u(peer.AuthApp, 4), ids(4, "auth")},
+	}
+	var seqs [][]int
+	for a := range al {
+		seqs = append(seqs, []int{a})
+		for b := range al {
+			seqs = append(seqs, []int{a, b})
+		}
+	}
+	rec.Suite("two-type-application", len(seqs)*2, func(c *ev.Case) {
+		cc := c11Case{host: true, realm: true, inband: -1, apps: seqs[c.I/2], nAddrs: 1, zeroIDs: c.I%2 == 1}
+		c.Class("two-type/%s", al[cc.apps[0]].name)
+		leak := runBubbleWD(t, rec, c, 60*time.Second, func() { runC11(c, ctx, al, cc) })
+		if leak != "" && !c.Failed() {
+			c.Fail(ev.Sig{"op": "bubble-leak"}, nil, nil, "goroutines left blocked after the scenario: %s", leak)
+		}
+	})
+	rec.Exhaustive("two-type-application")
 }
